@@ -132,7 +132,7 @@ void vrt_spec_synchronize(void);
 
 /* parameters of the URCU_VERIF source hooks (one build serves all values) */
 extern unsigned long vrt_param_qs_attempts, vrt_param_wait_attempts, vrt_param_defer_queue_size,
-	vrt_param_min_partition_order, vrt_param_count_commit_order, vrt_param_init_reader_count;
+	vrt_param_min_partition_order, vrt_param_count_commit_order, vrt_param_init_reader_count, vrt_param_affinity_period;
 
 #ifdef __cplusplus
 }
